@@ -495,6 +495,27 @@ def frm(mod: str, *names: Any, level: int = 0, optional: bool = False) -> Any:
 
 def corpus() -> List[Tuple[str, Any]]:
     out: List[Tuple[str, Any]] = []
+    # a SUB-MODULE re-exported through __all__ by a module that is not the package's own __init__: `from pkg import core`
+    # processes pkg.core on demand BEFORE it is moved, so its relative imports are resolved in its own package whatever the
+    # order of the roots (a facade analysed first must not move a still unprocessed module)
+    sub_pkg = [M('pkg', [], pkg=True, doc='The package.'),
+               M('base', [cls('Base', members=[[0, 'hello', 'Say hello.']])], parent=0),
+               M('core', [frm('base', 'Base', level=1), cls('Impl', ['Base'], doc='Implementation.')], parent=0, doc='Core.')]
+    out.append(('submodule-reexport-root-facade', {'mods': sub_pkg + [
+        M('facade', [frm('pkg', 'core'), ['all', ['core']]], doc='Facade.')],
+        'queries': [['facade', 'core.Impl'], ['pkg', 'core.Impl']]}))
+    for fac in ('afacade', 'zfacade'):
+        out.append(('submodule-reexport-sibling-' + fac, {'mods': sub_pkg + [
+            M(fac, [frm('', 'core', level=1), ['all', ['core']]], parent=0, doc='Facade.')],
+            'queries': [['pkg.' + fac, 'core.Impl']]}))
+    # an import cycle in which a class is visited while the module of its base is still being processed (base resolved by the
+    # second pass of compute_mro, in the scope of the class's PARENT) and the class has a member named like the base
+    out.append(('cycle-base-named-like-member', {'mods': [
+        M('options', [frm('config', 'Config'), cls('Options', members=[[0, 'get', 'Get an option.']], doc='Container of options.'),
+                      ['def', 'default', 'The default configuration.']], doc='Options.'),
+        M('config', [frm('options', 'Options'), cls('Config', ['Options'], members=[[1, 'Options', 'the options in use']],
+                                                  doc='A configuration.')], doc='Configuration.')],
+        'queries': []}))
     # the witness of C06_dup_in_cycle_refuted
     out.append(('dup-in-cycle', {'mods': [
         M('a', [cls('B', doc='first'), frm('b', 'C'), cls('B', doc='second')]),
@@ -1026,6 +1047,15 @@ def raw_cases() -> List[Any]:
                                                         [('run', 'Base.run')], ['stop']), nested))
         out.append(proj(tag + 'plain-import-as', raw_app(['import %s.base as b' % pk], ['b.Base'],
                                                        [('run', 'b.Base.run')], ['stop']), nested))
+    # the same cycle with a NESTED CLASS named like the base (nested classes are outside the model)
+    out.append({'mods': [
+        {'name': 'options', 'parent': None, 'pkg': False, 'doc': None, 'stmts': [],
+         'src': '"""Options."""\nfrom config import Config\nclass Options:\n    """Container of options."""\n    def get(self, name):\n'
+                '        """Get an option."""\ndef default() -> Config:\n    """The default configuration."""\n'},
+        {'name': 'config', 'parent': None, 'pkg': False, 'doc': None, 'stmts': [],
+         'src': '"""Configuration."""\nfrom options import Options\nclass Config(Options):\n    """A configuration."""\n'
+                '    class Options:\n        """Nested, named like the base."""\n'}],
+        'queries': [], 'raw': True, 'label': 'raw/cycle-base-named-like-nested-class'})
     # exception hierarchies spread over modules reached through plain imports and dotted base expressions
     def exc_proj(label: str, root_last: bool) -> Any:
         mods = [{'name': 'pkg', 'parent': None, 'pkg': True, 'doc': None, 'stmts': [], 'src': ''},
